@@ -239,3 +239,86 @@ def conformance(chk, pid, table, drv, tier, do_guided=True):
                 chk.traces += followed
                 stats["guided"].append({"n": n, "followed": followed, "total": total})
     return stats
+
+
+# ----------------------------------------------------------------------------- client histories (C09, C14)
+
+def histories_from_steps(path):
+    """Client histories from sysdrv step lines carrying "obs" events ({"op":"inv"|"ret", "client", ...}).
+    Stamps are positions in the global commit order of the execution."""
+    out, cur, step = [], None, 0
+    for d in V.read_jsonl(path):
+        if d["e"] == "case":
+            cur = {"meta": d, "ops": [], "open": {}, "anomalies": []}
+            out.append(cur)
+            step = 0
+        elif cur is not None and d["e"] == "step":
+            step += 1
+            o = d.get("obs")
+            if not o:
+                continue
+            if o["op"] == "inv":
+                op = {"c": str(o["client"]), "kind": o["kind"], "key": o["key"], "val": o.get("val", ""), "inv": step, "ret": 0,
+                      "ok": False, "rval": "", "idx": str(o.get("idx", ""))}
+                cur["ops"].append(op)
+                cur["open"][str(o["client"])] = op
+            elif o["op"] == "ret":
+                op = cur["open"].pop(str(o["client"]), None)
+                if op is None:
+                    cur["anomalies"].append({"step": step, "event": o, "what": "response without a pending operation"})
+                    continue
+                op["ret"] = step
+                op["ok"] = bool(o.get("ok"))
+                op["rval"] = o.get("rval", "") if op["ok"] else ""
+                if str(o.get("key", op["key"])) != op["key"]:
+                    cur["anomalies"].append({"step": step, "event": o, "what": "response for another key than requested"})
+    for h in out:
+        h.pop("open", None)
+    return out
+
+
+def check_linearizable(chk, specdir, hists, chunks=4, timeout=900):
+    """Each history is judged by TLC on spec/C09/KVLin.tla. Returns list of indices of histories that are
+    NOT linearizable (search exhausted)."""
+    import concurrent.futures, shutil, tempfile, re
+    idx = [i for i, h in enumerate(hists) if h["ops"]]
+    bad = []
+    if not idx:
+        return bad
+    chunks = max(1, min(chunks, len(idx)))
+    parts = [idx[i::chunks] for i in range(chunks)]
+
+    def work(part):
+        res_bad, st, tr, errs, okc = [], 0, 0, [], 0
+        part = list(part)
+        while part:
+            w = tempfile.mkdtemp(prefix="lin.", dir=chk.tmp)
+            V.copy_specs(specdir, w, names=["KVLin.tla", "KVLin.cfg"])
+            with open(os.path.join(w, "hist.ndjson"), "w") as f:
+                for i in part:
+                    f.write(json.dumps({"ops": hists[i]["ops"]}) + "\n")
+            r = V.tlc(w, "KVLin", cfg="KVLin.cfg", workers=1, timeout=timeout, deadlock=False,
+                      jvm=["-Dtlc2.tool.queue.IStateQueue=StateDeque"])
+            shutil.rmtree(w, ignore_errors=True)
+            st += r.distinct; tr += r.generated
+            if r.timed_out or (r.error and not r.violation):
+                errs.append(r.error or "timeout")
+                break
+            done = [int(x) for x in re.findall(r'<<"LINEARIZABLE", (\d+)>>', r.out)]
+            k = max(done) if done else 0
+            if r.violation and "NotAllLinearized" in r.violation:
+                okc += len(part)
+                break
+            # history k+1 of this part could not be linearized
+            res_bad.append(part[k])
+            okc += k
+            part = part[k + 1:]
+        return res_bad, st, tr, errs, okc
+
+    with concurrent.futures.ThreadPoolExecutor(max_workers=chunks) as ex:
+        for res_bad, st, tr, errs, okc in ex.map(work, parts):
+            bad += res_bad
+            chk.states += st; chk.transitions += tr; chk.traces += okc
+            for e in errs:
+                chk.inconclusive.append("KVLin: " + str(e)[:400])
+    return bad
